@@ -188,6 +188,11 @@ def check(ctx):
                 I2, s2 = ctx.interp(stubs=stubs), State()
                 piv = ctx.attr(st, o, "pi_")
                 site = ctx.site(P.method(cls, "_continue_greedy_search"))
+                if re_name != "0":
+                    xc_after = ctx.attr(st, o, "X_current_")
+                    loops = [t for t in tq.walk_all(xc_after.term) if t.op == "loop"]
+                    ok_it = bool(loops) and all(t.args[1] == attrs["selected_idx_"].term for t in loops)
+                    ctx.ob("R-CADENCE", f"{cfg}: warm start re-orthogonalises exactly the previously selected items (before the index buffer is re-extended)", ok_it, f"loop over {[repr(t.args[1])[:80] for t in loops]}", site, cfg)
                 if re_name == "0":
                     ctx.ob("R-CADENCE", f"{cfg}: warm start keeps the scores when they are never refreshed", piv.term == pi.term, f"pi_ after warm start = {piv.term!r}", site, cfg)
                     xc_after = ctx.attr(st, o, "X_current_")
